@@ -44,6 +44,11 @@ CLAIMS = {
          "metamorphic non-interference: every other component is structurally identical whether or not the using struct carries usage-site validators; every $ref names an existing component; 3.0 and 3.1 components agree.",
          "Bounds as coded in harness/.../generator/swagen/zz_verif_c07.go. Outside: reachability closure and enum-constant discovery over Go type graphs (go/types visitors), json:\"-\" filtering (done by the struct visitor), RFC-7807 model injection (AppendErrorSchema is a literal).",
          "DESIGN.md 4 (C07)"),
+ "C08": ("(gate) swagen.GenerateAndOutputSpec / GenerateSpec / both GenerateSpec run with the 3.0 validator, the 3.1 renderer, libopenapi.NewDocument, the 3.1 validator, os.MkdirAll and os.WriteFile replaced by nondeterministic stubs (every combination of success and failure, three openapi versions): "
+         "the file is written at most once, only after the 3.0 validation - which always runs - and every step of the selected version succeeded, with the selected version's bytes; any failure or an unsupported version is an error and writes nothing. "
+         "(closure facts) enum values put on a schema by enum=/oneof= rules are of the schema's declared type in both dialects (symbolic rule values); every $ref names an existing component (C07 harness); every response has a description (C06 harness); path-template/parameter correspondence is enforced by the always-executed kin-openapi validation (trusted).",
+         "Bounds as coded in harness/.../generator/swagen/zz_verif_c08.go. The gate harness is engine-only: injected library/OS faults cannot be reproduced by a native run, so its counterexamples are re-executed concretely inside the engine instead. Outside: the validity judgement of kin-openapi/libopenapi themselves and the JSON encoders (trusted libraries); info/servers copying (inside GenerateSpec, between stubs) is not asserted.",
+         "DESIGN.md 4 (C08)"),
  "C10": ("Receiver-level accept decision (CommonValidator + validateParams + annotation linker, as ReceiverValidator.Validate combines them) for every route with <=1 URL name, <=2 function parameters (primitive or struct, optional context), <=2 parameter annotations "
          "of the five kinds with symbolic values and optional name alias: no error diagnostic iff the property's linking/body/form/primitive rules hold (soundness and completeness asserted separately); return signature and verb rules; no duplicate diagnostics. "
          "One recorded finding (alias-less @Path not checked against URL names) is reported as KNOWN-FINDING.",
